@@ -3,11 +3,16 @@ EXTENDS Tree
 F(n, s) == [k |-> "file", n |-> n, size |-> s]
 L(n, to) == [k |-> "link", n |-> n, to |-> to]
 QLeaves == { F("f0", "empty"), F("f1", "small"), F("f2", "small"),        \* f1 and f2 have IDENTICAL content
-             F("uni", "small2"), F(".hid", "small2"), F("zt", "zerotail"), F("long", "small"),       \* long: a name of 251 bytes (83 three-byte characters + 2)      \* zt: 256 KiB ending in 192 KiB of zeros F("fpb", "dirbytes"),     \* fpb: a file whose bytes are the block of an empty directory F("chunk", "onechunk"), F("big", "multichunk"), F("zeros", "repeatchunk"),
+             F("uni", "small2"), F(".hid", "small2"),
+             F("zt", "zerotail"),      \* zt: 256 KiB ending in 192 KiB of zeros
+             F("long", "small"),       \* long: a name of 251 bytes (83 three-byte characters + 2)
+             F("fpb", "dirbytes"),     \* fpb: a file whose bytes are the block of an empty directory
+             F("chunk", "onechunk"), F("big", "multichunk"), F("zeros", "repeatchunk"),
              L("l1", "rel"), L("l2", "rel"), L("labs", "abs"), L("ldang", "dangling"), L("lweird", "unclean") }
 QTopOnly == { [k |-> "manydir", n |-> "many", to |-> "entries"],     \* sharded (HAMT)
               [k |-> "manydir", n |-> "wide", to |-> "entries"] }     \* 5000 short names: the largest plain directory block, just below the sharding threshold
 QDirNames == { "d", "sp ace", ".dd" }
-QConfigs == { [version |-> v, nowrap |-> w, stdin |-> s, spell |-> "abs"] : v \in {1, 2}, w \in BOOLEAN, s \in BOOLEAN }
-       \cup { [version |-> v, nowrap |-> w, stdin |-> FALSE, spell |-> sp] : v \in {1, 2}, w \in BOOLEAN, sp \in {"dot", "dirdot", "hidden"} }
+QConfigs == { [version |-> v, nowrap |-> w, stdin |-> s, spell |-> "abs", dest |-> "fresh"] : v \in {1, 2}, w \in BOOLEAN, s \in BOOLEAN }
+       \cup { [version |-> v, nowrap |-> w, stdin |-> FALSE, spell |-> sp, dest |-> "fresh"] : v \in {1, 2}, w \in BOOLEAN, sp \in {"dot", "dirdot", "hidden"} }
+       \cup { [version |-> 2, nowrap |-> w, stdin |-> s, spell |-> "abs", dest |-> d] : w \in BOOLEAN, s \in BOOLEAN, d \in {"link", "stale"} }
 =============================================================================
